@@ -62,6 +62,35 @@ RICH = [{sid: rich_section_bytes(sid, v) for sid in IDS} for v in range(3)]
 BLANKS = ['none', 'before-last', 'before-every', 'crlf-before-last',
           'rich0', 'rich1', 'rich2']
 
+# metadata bodies with the values the specification documents (the order
+# rule is about headers; what a body SAYS must not matter)
+META_BODIES = [
+    {'type': 'symlink', 'path': 'l', 'symlink target': 't'},
+    {'type': 'directory', 'path': 'd'}, {'type': 'file', 'path': 'f'},
+    {'op': 'delete', 'path': 'f'}, {'op': 'create', 'path': 'f'},
+    {'op': 'move', 'path': {'old': 'a', 'new': 'b'}},
+    {'op': 'copy', 'path': {'old': 'a', 'new': 'b'}},
+    {'op': 'move-modify', 'path': {'old': 'a', 'new': 'b'}},
+    {'op': 'copy-modify', 'path': {'old': 'a', 'new': 'b'}},
+    {'op': 'modify', 'path': 'f', 'stats': {'insertions': 0, 'deletions': 0,
+                                           'lines changed': 0}},
+    {'stats': {'files': 0, 'changes': 0, 'insertions': 0, 'deletions': 0}},
+    {'diff': None, 'sections': [], 'next': '...diff', 'binary': True},
+    {'unix file mode': {'old': '0100644', 'new': '0120000'}},
+    {'revision': {'old': 'abc'}}, {'revision': {'new': 'def'}},
+    {'path': '/dev/null'}, {'empty': True, 'length': 0, 'size': 0},
+]
+META_SEC = []
+for _mb in META_BODIES:
+    import json as _json
+    _b = _json.dumps(_mb, sort_keys=True).encode('ascii') + b'\n'
+    _sec = dict(SEC)
+    for _sid in IDS:
+        if _sid.lstrip('.') == 'meta':
+            _sec[_sid] = (b'#%s: format=json, length=%d\n%s'
+                          % (_sid.encode(), len(_b), _b), 2)
+    META_SEC.append(_sec)
+
 
 def check_sequence(seq, blank='none'):
     """seq: list of ids; all but possibly the last are a legal prefix.
@@ -70,6 +99,8 @@ def check_sequence(seq, blank='none'):
     sec = SEC
     if blank.startswith('rich'):
         sec = RICH[int(blank[4:])]
+    if blank.startswith('meta-'):
+        sec = META_SEC[int(blank[5:])]
     if blank.startswith('big-'):
         # the main preamble (always legal at index 1 of a long sequence) has
         # a body of n lines: every later header sits beyond line n
@@ -79,7 +110,7 @@ def check_sequence(seq, blank='none'):
                             b'a\n' * n, 1 + n)
     parts = []
     for i, s in enumerate(seq):
-        if blank.startswith('big-'):
+        if blank.startswith('big-') or blank.startswith('meta-'):
             parts.append(sec[s][0])
             continue
         if blank.startswith('rich'):
@@ -220,6 +251,7 @@ def plan(tier):
     units = [('short',)] + [('tree', p) for p in pre] + [('graph',),
                                                          ('scale',)]
     units += [('big', n) for n in big_sizes(tier)]
+    units += [('metabody', i) for i in range(len(META_BODIES))]
     units += [('long', nch, nf) for nch, nf in LONG_SHAPES]
     return {
         'units': units,
@@ -233,7 +265,9 @@ def plan(tier):
                 '"rich" renderings where every section carries the options '
                 'and bodies a real producer writes (encodings on containers, '
                 'indent / mimetype / dos preambles, binary / dos / UTF-16 '
-                'diffs); each is '
+                'diffs) and with 17 metadata bodies holding the values the '
+                'specification documents (type symlink / directory, every '
+                'op, zero stats, ...); each is '
                 'read by the real DiffXReader; for sequences of <= 8 sections '
                 'the same reader object is iterated again over the rewound '
                 'stream after a complete pass and must accept like a fresh '
@@ -280,7 +314,29 @@ def run_unit(unit, tier):
                 visit(seq)
 
     recurse = [True]
-    if unit[0] in ('big', 'long'):
+    if unit[0] == 'metabody':
+        blank = 'meta-%d' % unit[1]
+        for p in legal_prefixes(7):
+            if not any(x.endswith('meta') for x in p):
+                continue
+            for s_ in IDS:
+                sq = list(p) + [s_]
+                viols, ok = check_sequence(sq, blank)
+                acc.evals += 1
+                acc.states += 1
+                acc.transitions += 1
+                acc.validated += 1
+                if not ok:
+                    acc.nontrivial += 1
+                for key, msg in viols:
+                    acc.violation('%s:metadata-body' % key,
+                                  '%s (metadata bodies %r)'
+                                  % (msg[-400:], META_BODIES[unit[1]]),
+                                  {'kind': 'seq', 'seq': sq, 'blank': blank,
+                                   'suffix': ':metadata-body'})
+                acc.outcome('accepted' if ok else 'rejected')
+        acc.sample({'metadata_body': META_BODIES[unit[1]]}, 1)
+    elif unit[0] in ('big', 'long'):
         # the order rule far into a file: (a) after a body of n lines,
         # (b) after thousands of sections; every id after each of the last
         # positions of a sequence that has already shown every header kind
@@ -401,5 +457,8 @@ def replay(payload):
         return []
     blank = payload.get('blank', 'none')
     viols, ok = check_sequence(payload['seq'], blank)
+    if payload.get('suffix'):
+        return [{'key': k + payload['suffix'], 'msg': m[-400:]}
+                for k, m in viols]
     return [{'key': k if blank == 'none' else '%s:blank-%s' % (k, blank),
              'msg': m} for k, m in viols]
